@@ -91,10 +91,10 @@ Fixpoint locate_end_from (s : key) (l : layout) (k : key) : region :=
   | [] => mkRegion s []
   | p :: l' => if kleb k p then mkRegion s p else locate_end_from p l' k
   end.
-(* RegionCache.LocateEndKey: the region with start < k <= end.  For k = [] (meant as the end of
-   the key space) the code returns the FIRST region (SearchByKey skips nothing, loadRegion asks PD
-   for the region containing "" and the prev-region step is skipped) — so does this function. *)
-Definition locate_end_key (l : layout) (k : key) : region := locate_end_from [] l k.
+(* RegionCache.LocateEndKey: the region with start < k <= end; the empty key is the end of the key
+   space and belongs to the last region (0dbaf7e; before that fix the code returned the first region). *)
+Definition locate_end_key (l : layout) (k : key) : region :=
+  if is_nil k then mkRegion (last l []) [] else locate_end_from [] l k.
 
 Definition region_contains (r : region) (k : key) : bool := kleb (r_start r) k && below (r_end r) k.
 
